@@ -9,11 +9,13 @@ for r in $(seq 0 21); do
   out=$(./symgo run -dir mux -entry ZZSelfRegexp -n $((r*10+3)) -native 400 2>&1)
   echo "regexp rule $r: $(echo "$out" | grep -o 'paths=[0-9]*') $(echo "$out" | grep 'native validation')"
   echo "$out" | grep -q "0 mismatches" || { bad=1; echo "$out" | grep "MISMATCH\|ENGINE" | head -3 | cut -c1-300; }
+  echo "$out" | grep -q "VIOLATION\|ENGINE ERRORS" && { bad=1; echo "$out" | grep "VIOLATION\|ENGINE ERRORS" | head -3 | cut -c1-300; }
 done
 for e in "ZZSelfStrings 3" "ZZSelfRunes 3" "ZZSelfRunes 4" "ZZSelfUnicode 3" "ZZSelfMisc 1" "ZZSelfTable 3"; do set -- $e
   out=$(./symgo run -dir mux -entry $1 -n $2 -native 600 2>&1)
   echo "$1($2): $(echo "$out" | grep -o 'paths=[0-9]*') $(echo "$out" | grep 'native validation')"
   echo "$out" | grep -q "0 mismatches" || { bad=1; echo "$out" | grep "MISMATCH\|ENGINE" | head -3 | cut -c1-300; }
+  echo "$out" | grep -q "VIOLATION\|ENGINE ERRORS" && { bad=1; echo "$out" | grep "VIOLATION\|ENGINE ERRORS" | head -3 | cut -c1-300; }
 done
 out=$(./symgo run -dir types -entry ZZSelfAtomic -n 0 -native 30 2>&1); echo "atomics: $(echo "$out" | grep 'native validation')"; echo "$out" | grep -q "0 mismatches" || bad=1
 exit $bad
